@@ -244,6 +244,12 @@ def probe_all(repo, harness_bin, workdir, reference):
         ack = hexs(b"ACK [" + str(code).encode() + b"@0] {readpicture} no\n")
         q["art"].append(R.ask(f"loop p~ d:{g} a1:{hexs('song')} d:{ok} d:{ack}"))
 
+    two = hexs(b"changed: player\nchanged: mixer\nOK\n")
+    q["two_idle"] = R.ask(f"loop p~ d:{g} d:{two}")
+    q["two_noidle"] = R.ask(f"loop p~ d:{g} c1:ping d:{two} d:{ok}")
+    umax = str(2 ** 64 - 1)
+    q["sat"] = [R.ask(f"predef Delete.range rx{umax},u"), R.ask(f"predef Delete.range ri0,i{umax}")]
+
     # filter operators and value escaping
     ops = (ref("operator_enum") or {"variants": ["Equal", "NotEqual", "Contain", "Match", "NotMatch"]})["variants"]
     q["ops"] = {o: R.ask(f"filter find T/n:Album/{o}/{hexs('v')}") for o in ops}
@@ -494,6 +500,33 @@ def probe_all(repo, harness_bin, workdir, reference):
         return {"n": codes[0]}
     attempt("album_art_fallback_code", f_art)
 
+    def two_events(line):
+        evs = re.findall(r"ev:([0-9a-f]+)", line)
+        if evs == [hexs("player"), hexs("mixer")]:
+            return True
+        if evs in ([hexs("player")], [hexs("mixer")]):
+            return False
+        raise Unavailable(f"idle reply with two changes: events {evs}")
+
+    def f_all_changed():
+        v = two_events(o[q["two_idle"]])
+        return {"value": {"ok": v}} if v else {"value": {"ok": False}, "detail": "an idle reply naming two subsystems produced one event"}
+
+    def f_event_sites():
+        v = two_events(o[q["two_idle"]]) and two_events(o[q["two_noidle"]])
+        return {"value": {"ok": v}} if v else {"value": {"ok": False}, "detail": "a reply naming two subsystems produced one event (while idling or on noidle)"}
+
+    def f_saturating():
+        exp = [f"delete {umax}:\n".encode(), f"delete 0:{umax}\n".encode()]
+        outs = [o[i] for i in q["sat"]]
+        v = all(x == "ok " + hexs(e) for x, e in zip(outs, exp))
+        return {"value": {"ok": v}} if v else {"value": {"ok": False}, "detail": f"ranges touching usize::MAX render as {outs}"}
+    for name, fn in (("sub_all_changed_fields", f_all_changed), ("sub_event_sites_iterate", f_event_sites), ("range_saturating", f_saturating)):
+        try:
+            res[name] = fn()
+        except (Unavailable, Inconsistent, KeyError, ValueError) as e:
+            res[name] = {"error": str(e), "kind": "unavailable"}
+
     # ---- filters
     def filter_expr(line, what):
         if not line.startswith("ok "):
@@ -730,10 +763,10 @@ def probe_all(repo, harness_bin, workdir, reference):
             if line.startswith("error") or line.startswith("skip"):
                 continue
             d = kv(line)
-            if d["name"] != hexs(c):
-                raise Inconsistent(f"the subsystem decoded from `changed: {c!r}` is called {unhexs(d['name'])!r}")
             if d["variant"] != "Other":
                 rows.append([c.hex(), d["variant"]])
+            elif d["name"] != hexs(c):
+                raise Inconsistent(f"the catch-all subsystem decoded from `changed: {c!r}` is called {unhexs(d['name'])!r}")
         if not rows:
             raise Unavailable("no candidate name decodes to a named subsystem")
         return {"rows": rows}
@@ -780,6 +813,8 @@ def probe_all(repo, harness_bin, workdir, reference):
         url, skip, expected = [], [], set()
         for k, idx in q2["songA"]:
             line = o[idx]
+            if line == "PANIC":
+                continue        # a candidate key the decoder cannot digest at all says nothing about this table (C12's oracle judges it)
             if line == "ok []":
                 skip.append(k)
             elif line.startswith("ok [url=" + hexs("v") + ","):
@@ -802,6 +837,8 @@ def probe_all(repo, harness_bin, workdir, reference):
         starts = []
         for k, idx in q2["songB"]:
             line = o[idx]
+            if line == "PANIC":
+                continue
             if line.startswith("ok ["):
                 n_songs = line.count("|") + 1 if line != "ok []" else 0
                 if n_songs == 2:
@@ -832,9 +869,11 @@ def probe_all(repo, harness_bin, workdir, reference):
             raise Unavailable("entry-start keys unknown")
         attrs = []
         for k, idx in q2["songC"]:
-            if start_keys.get(k):
+            if start_keys.get(k) or k not in start_keys:
                 continue
             line = o[idx]
+            if line == "PANIC":
+                continue
             if line.startswith("ok [") and ("=[" + hexs("zz") + "]") in line:
                 continue                                    # stored as a tag
             attrs.append(k)
